@@ -9,6 +9,7 @@
 #include "rat.h"
 #include <Fastor/Fastor.h>
 #include "rat_fastor.h"
+#include "reduce_depth.h"
 #include <cstdio>
 #include <cstdint>
 #include <cstring>
@@ -17,6 +18,7 @@
 #include <string>
 #include <vector>
 #include <algorithm>
+#include <complex>
 #include <unistd.h>
 #include <sys/wait.h>
 #ifndef CFGNAME
@@ -379,6 +381,134 @@ void run_detrat(uint32_t ds) {
     }
 }
 
+// ---------------------------------------------------------------------------------------------
+// reductions over VIEWS (A(seq), A(fseq), 2-D views) and over boolean / comparison expressions, including the
+// requires-evaluation overloads (trans); exact integer-valued data; a violating element at EVERY position
+template<typename T, size_t N>
+void run_rview(uint32_t ds) {
+    std::string head = "rview cfg=" CFGNAME " T=" + std::string(tn<T>::n()) + " n=" + std::to_string(N) + " ds=" + std::to_string(ds);
+    guarded(head, [&]{
+        using W = typename wide<T>::type;
+        std::string fails;
+        uint32_t s = ds * 69069u + (uint32_t)N * 5u;
+        Tensor<T,N> A, B, P;
+        for (size_t i = 0; i < N; ++i) { A(i) = (T)((int)(rnd(s) % 41) - 20); B(i) = (T)((int)(rnd(s) % 9) - 4); P(i) = (T)((rnd(s) & 1) ? 1 : ((rnd(s) & 1) ? -1 : 2)); }
+        auto chk = [&](const std::string& what, T got, T want) { if (!(want == got)) fails += " " + what + ":got=" + vstr<T>(got) + ",want=" + vstr<T>(want); };
+        for (int rep = 0; rep < 10; ++rep) {
+            int f = (int)(rnd(s) % N), st = 1 + (int)(rnd(s) % 3), l = f + 1 + (int)(rnd(s) % (N - f));
+            if (rep == 0) { f = 0; l = (int)N; st = 1; }
+            if (rep == 1) { f = 0; l = (int)N; st = 2; }
+            W sw = 0, pw = 1, iw = 0, nw = 0; T mn = A(f), mx = A(f); int cnt = 0;
+            for (int i = f; i < l; i += st) { sw = (W)(sw + (W)A(i)); if (cnt < 24) pw = (W)(pw * (W)P(i)); iw = (W)(iw + (W)A(i) * (W)B(i)); nw = (W)(nw + (W)A(i) * (W)A(i)); mn = std::min(mn, (T)A(i)); mx = std::max(mx, (T)A(i)); ++cnt; }
+            std::string tag = "(seq(" + std::to_string(f) + "," + std::to_string(l) + "," + std::to_string(st) + "))";
+            chk("sum(A" + tag + ")", sum(A(seq(f, l, st))), (T)sw);
+            chk("sum(A" + tag + "+B" + tag + ")", sum(A(seq(f, l, st)) + B(seq(f, l, st))), (T)(sw + [&]{ W q = 0; for (int i = f; i < l; i += st) q = (W)(q + (W)B(i)); return q; }()));
+            chk("min(A" + tag + ")", min(A(seq(f, l, st))), mn); chk("max(A" + tag + ")", max(A(seq(f, l, st))), mx);
+            if (cnt <= 24) chk("product(P" + tag + ")", product(P(seq(f, l, st))), (T)pw);
+            if (isfp<T>()) { T g = norm(A(seq(f, l, st))); if (g != (T)std::sqrt((T)nw)) fails += " norm(A" + tag + ")"; }
+        }
+        { W sw = 0; T mx = A(N > 1 ? 1 : 0); for (size_t i = (N > 1 ? 1 : 0); i < N; i += 3) { sw = (W)(sw + (W)A(i)); mx = std::max(mx, (T)A(i)); }
+          chk("sum(A(fseq<1,N,3>))", sum(A(fseq<(N > 1 ? 1 : 0), (int)N, 3>())), (T)sw); chk("max(A(fseq<1,N,3>))", max(A(fseq<(N > 1 ? 1 : 0), (int)N, 3>())), mx); }
+        std::printf("%s | %s%s\n", head.c_str(), fails.empty() ? "ok" : "FAIL", fails.substr(0, 400).c_str());
+    });
+}
+template<typename T, size_t M, size_t N>
+void run_rview2(uint32_t ds) {
+    std::string head = "rview2 cfg=" CFGNAME " T=" + std::string(tn<T>::n()) + " m=" + std::to_string(M) + " n=" + std::to_string(N) + " ds=" + std::to_string(ds);
+    guarded(head, [&]{
+        using W = typename wide<T>::type;
+        std::string fails; uint32_t s = ds * 12347u + (uint32_t)(M * 31 + N);
+        Tensor<T,M,N> A; for (size_t i = 0; i < M; ++i) for (size_t j = 0; j < N; ++j) A(i,j) = (T)((int)(rnd(s) % 41) - 20);
+        for (int rep = 0; rep < 8; ++rep) {
+            int f0 = (int)(rnd(s) % M), l0 = f0 + 1 + (int)(rnd(s) % (M - f0)), f1 = (int)(rnd(s) % N), l1 = f1 + 1 + (int)(rnd(s) % (N - f1)), s1 = 1 + (int)(rnd(s) % 2);
+            if (rep == 0) { f0 = 0; l0 = (int)M; f1 = 0; l1 = (int)N; s1 = 1; }
+            W sw = 0; T mn = A(f0,f1), mx = A(f0,f1);
+            for (int i = f0; i < l0; ++i) for (int j = f1; j < l1; j += s1) { sw = (W)(sw + (W)A(i,j)); mn = std::min(mn, (T)A(i,j)); mx = std::max(mx, (T)A(i,j)); }
+            T g = sum(A(seq(f0, l0), seq(f1, l1, s1))), gmn = min(A(seq(f0, l0), seq(f1, l1, s1))), gmx = max(A(seq(f0, l0), seq(f1, l1, s1)));
+            std::string tag = "(seq(" + std::to_string(f0) + "," + std::to_string(l0) + "),seq(" + std::to_string(f1) + "," + std::to_string(l1) + "," + std::to_string(s1) + "))";
+            if (g != (T)sw) fails += " sum" + tag + ":got=" + vstr<T>(g) + ",want=" + vstr<T>((T)sw);
+            if (gmn != mn) fails += " min" + tag; if (gmx != mx) fails += " max" + tag;
+        }
+        std::printf("%s | %s%s\n", head.c_str(), fails.empty() ? "ok" : "FAIL", fails.substr(0, 400).c_str());
+    });
+}
+// predicates of comparison / classification expressions: tensor-level expression, expression of expressions and the
+// requires-evaluation overload (trans); the deciding element at EVERY position
+template<typename T, size_t M, size_t N>
+void run_rbool(uint32_t ds) {
+    std::string head = "rbool cfg=" CFGNAME " T=" + std::string(tn<T>::n()) + " m=" + std::to_string(M) + " n=" + std::to_string(N) + " ds=" + std::to_string(ds);
+    guarded(head, [&]{
+        std::string fails; uint32_t s = ds * 30011u + (uint32_t)(M * 17 + N);
+        Tensor<T,M,N> A, B, C;
+        for (size_t i = 0; i < M * N; ++i) { A.data()[i] = (T)(10 + (int)(rnd(s) % 50)); B.data()[i] = (T)((int)(rnd(s) % 9)); C.data()[i] = (T)(A.data()[i] + B.data()[i] + 1); }
+        auto chk = [&](const std::string& what, bool got, bool want) { if (got != want) fails += " " + what + "=" + (got ? "true" : "false"); };
+        // A > B everywhere, A + B < C everywhere
+        chk("all_of(A>B)", all_of(A > B), true); chk("any_of(A<B)", any_of(A < B), false); chk("all_of(A+B<C)", all_of(A + B < C), true);
+        chk("any_of(A+B>=C)", any_of(A + B >= C), false); chk("all_of(trans(A)>0)", all_of(trans(A) > 0), true); chk("any_of(trans(A)<=0)", any_of(trans(A) <= 0), false);
+        chk("all_of(A!=C)", all_of(A != C), true); chk("any_of(A==C)", any_of(A == C), false);
+        for (size_t p = 0; p < M * N; ++p) {
+            Tensor<T,M,N> D = A; D.data()[p] = (T)(-1);                 // the only element not above B, the only non-positive one
+            std::string at = "@" + std::to_string(p);
+            chk("all_of(D>B)" + at, all_of(D > B), false); chk("any_of(D<B)" + at, any_of(D < B), true);
+            chk("all_of(D+B<C)" + at, all_of(D + B < C), true); chk("any_of(D+1<=0)" + at, any_of(D + (T)1 <= 0), true);
+            chk("all_of(trans(D)>0)" + at, all_of(trans(D) > 0), false); chk("any_of(trans(D)<=0)" + at, any_of(trans(D) <= 0), true);
+            chk("any_of(D==B-B-1)" + at, any_of(D == B - B - (T)1), true);
+        }
+        if (isfp<T>()) {
+            chk("all_of(isfinite(A))", all_of(isfinite(A)), true); chk("any_of(isnan(A))", any_of(isnan(A)), false); chk("any_of(isinf(A+B))", any_of(isinf(A + B)), false);
+            chk("all_of(isfinite(trans(A)))", all_of(isfinite(trans(A))), true);
+            for (size_t p = 0; p < M * N; ++p) {
+                Tensor<T,M,N> D = A, E = A; D.data()[p] = std::numeric_limits<T>::quiet_NaN(); E.data()[p] = -std::numeric_limits<T>::infinity();
+                std::string at = "@" + std::to_string(p);
+                chk("all_of(isfinite(D))" + at, all_of(isfinite(D)), false); chk("any_of(isnan(D))" + at, any_of(isnan(D)), true); chk("any_of(isinf(D))" + at, any_of(isinf(D)), false);
+                chk("all_of(isfinite(E))" + at, all_of(isfinite(E)), false); chk("any_of(isinf(E+B))" + at, any_of(isinf(E + B)), true); chk("any_of(isnan(E))" + at, any_of(isnan(E)), false);
+                chk("any_of(isnan(trans(D)))" + at, any_of(isnan(trans(D))), true); chk("all_of(isfinite(trans(E)))" + at, all_of(isfinite(trans(E))), false);
+            }
+        }
+        std::printf("%s | %s%s\n", head.c_str(), fails.empty() ? "ok" : "FAIL", fails.substr(0, 400).c_str());
+    });
+}
+// batched trace / determinant over the trailing two axes
+template<typename T, size_t Bn, size_t M>
+void run_rbatch(uint32_t ds) {
+    std::string head = "rbatch cfg=" CFGNAME " T=" + std::string(tn<T>::n()) + " b=" + std::to_string(Bn) + " n=" + std::to_string(M) + " ds=" + std::to_string(ds);
+    guarded(head, [&]{
+        std::string fails; uint32_t s = ds * 7001u + (uint32_t)(Bn * 13 + M);
+        Tensor<T,Bn,M,M> A; for (size_t i = 0; i < Bn * M * M; ++i) A.data()[i] = (T)((int)(rnd(s) % 9) - 4);
+        auto tr = trace(A); auto dt = determinant(A);
+        for (size_t b = 0; b < Bn; ++b) {
+            long long t = 0; std::vector<std::vector<Rat>> ref(M, std::vector<Rat>(M));
+            for (size_t i = 0; i < M; ++i) { t += (long long)A(b,i,i); for (size_t j = 0; j < M; ++j) ref[i][j] = Rat((long)A(b,i,j)); }
+            if ((T)t != tr(b)) fails += " trace[" + std::to_string(b) + "]got=" + vstr<T>(tr(b)) + ",want=" + std::to_string(t);
+            double d = (double)exact_det(ref);
+            if ((double)dt(b) != d) fails += " det[" + std::to_string(b) + "]got=" + vstr<T>(dt(b)) + ",want=" + std::to_string(d);
+        }
+        std::printf("%s | %s%s\n", head.c_str(), fails.empty() ? "ok" : "FAIL", fails.substr(0, 400).c_str());
+    });
+}
+// complex element types: Gaussian-integer data (every operation exact); one line per function
+template<typename R, size_t N>
+void run_cplx(uint32_t ds) {
+    using T = std::complex<R>;
+    uint32_t s = ds * 911u + (uint32_t)N;
+    Tensor<T,N> A, B, P;
+    for (size_t i = 0; i < N; ++i) { A(i) = T((R)((int)(rnd(s) % 9) - 4), (R)((int)(rnd(s) % 9) - 4)); B(i) = T((R)((int)(rnd(s) % 5) - 2), (R)((int)(rnd(s) % 5) - 2));
+        static const int ur[4] = {1, 0, -1, 0}, ui[4] = {0, 1, 0, -1}; int k = rnd(s) % 4; P(i) = T((R)ur[k], (R)ui[k]); }
+    T sA(0), sAB(0), pP(1), iAB(0); R n2 = 0;
+    for (size_t i = 0; i < N; ++i) { sA += A(i); sAB += A(i) + B(i); pP *= P(i); iAB += A(i) * B(i); n2 += std::norm(A(i)); }
+    auto line = [&](const char* what, bool ok, T got, T want) {
+        std::printf("cplx cfg=" CFGNAME " T=complex_%s n=%zu what=%s | %s got=%g%+gi want=%g%+gi\n", tn<R>::n(), N, what, ok ? "ok" : "FAIL", (double)got.real(), (double)got.imag(), (double)want.real(), (double)want.imag());
+    };
+    std::string head = "cplx cfg=" CFGNAME " T=complex_" + std::string(tn<R>::n()) + " n=" + std::to_string(N);
+    guarded(head + " what=sum", [&]{ T g = sum(A); line("sum", g == sA, g, sA); });
+    guarded(head + " what=tsum", [&]{ T g = A.sum(); line("tsum", g == sA, g, sA); });
+    guarded(head + " what=sumexpr", [&]{ T g = sum(A + B); line("sumexpr", g == sAB, g, sAB); });
+    guarded(head + " what=product", [&]{ T g = product(P); line("product", g == pP, g, pP); });
+    guarded(head + " what=inner", [&]{ T g = inner(A, B); line("inner", g == iAB, g, iAB); });
+    // the Frobenius norm of a complex tensor is sqrt(sum |x_i|^2), a non-negative real number
+    guarded(head + " what=norm", [&]{ T g = norm(A); T want(std::sqrt(n2), 0); bool ok = std::abs(g - want) <= 8 * N * std::numeric_limits<R>::epsilon() * std::abs(want); line("norm", ok, g, want); });
+}
+
 // determinant<QR> = product(diag(R)) of the Gram-Schmidt factorisation.  Lines go through the Lean model
 // (`detqr ... sgn=<sign of det A> | REL=exact|abs|other ORACLE=`): REL says how the returned value relates to
 // the exact determinant.  T=rat: A = Q0*R0 with Q0 a product of Pythagorean Givens rotations (times a row
@@ -464,14 +594,25 @@ void run_detreal(uint32_t ds) {
 }
 
 // ---------------------------------------------------------------------------------------------
-// measured floating-point error of sum / norm / inner / product against the bound of the property statement
-// (|err| <= n*eps*sum|x_i| for sums; n*eps*|prod| for products; n*eps*norm for norms).  A TEST, not a proof.
+// measured floating-point error of sum / inner / norm^2 against the THEOREM Fastor.C16.sum_error_bound: over the rounding model
+// |fl(x) - x| <= u|x| (u = eps/2) the reduction machine returns a value within ((1+u)^DEPTH - 1) * sum|term_i| of the exact
+// sum, DEPTH = #vector steps + U + V + #tail + 1 (reduce_depth.h; the symbolic runs check DEPTH against the Lean model).
+// inner / norm add one rounding for the products on configurations without FMA (DEPTH + 1).  product: n*u relative.
+// This remains a TEST of the FPU against the modelled tree (ratio = measured error / bound, must be <= 1).
 template<typename T, size_t N>
 void run_fbound(uint32_t ds) {
     std::string head = "fbound cfg=" CFGNAME " T=" + std::string(tn<T>::n()) + " n=" + std::to_string(N) + " ds=" + std::to_string(ds);
     guarded(head, [&]{
         double worst = 0; std::string fails;
-        const long double eps = std::numeric_limits<T>::epsilon();
+        const long double u = std::numeric_limits<T>::epsilon() / 2;
+#ifdef FASTOR_AVX512_IMPL
+        const bool a512 = true;
+#else
+        const bool a512 = false;
+#endif
+        const size_t Vn = Tensor<T,N>::simd_vector_type::Size;
+        const size_t Vs = internal::choose_best_simd_type<SIMDVector<T,DEFAULT_ABI>,N>::type::Size;
+        auto bound = [&](size_t depth) { return std::pow(1.0L + u, (long double)depth) - 1.0L; };
         for (int rep = 0; rep < 10; ++rep) {
             uint32_t s = ds * 49979687u + rep * 8191u + (uint32_t)N;
             Tensor<T,N> A, B, P;
@@ -481,14 +622,18 @@ void run_fbound(uint32_t ds) {
             }
             long double sA = 0, aA = 0, pP = 1, nA = 0, iAB = 0, aAB = 0;
             for (size_t i = 0; i < N; ++i) { sA += A(i); aA += std::fabs((long double)A(i)); pP *= P(i); nA += (long double)A(i) * A(i); iAB += (long double)A(i) * B(i); aAB += std::fabs((long double)A(i) * B(i)); }
-            auto rec = [&](const char* what, long double got, long double want, long double scale) {
-                long double r = std::fabs(got - want) / (N * eps * scale + 1e-300L);
+            auto rec = [&](const char* what, long double got, long double want, long double bnd) {
+                long double r = std::fabs(got - want) / (bnd + 1e-300L);
                 if ((double)r > worst) worst = (double)r;
                 if (!(r <= 1.0L)) fails += std::string(" ") + what + "(rep" + std::to_string(rep) + ")";
             };
-            rec("sum", sum(A), sA, aA); rec("A.sum", A.sum(), sA, aA); rec("sum(A+B-B)", sum(A + B - B), sA, 3 * (aA + 2 * N * 200));
-            rec("product", product(P), pP, std::fabs(pP)); rec("P.product", P.product(), pP, std::fabs(pP));
-            rec("norm", norm(A), std::sqrt(nA), std::sqrt(nA)); rec("inner", inner(A, B), iAB, aAB);
+            rec("sum", sum(A), sA, bound(vfdepth::depth(vfdepth::SUM, N, Vn, a512)) * aA);
+            rec("A.sum", A.sum(), sA, bound(vfdepth::depth(vfdepth::SUM, N, Vn, a512)) * aA);
+            rec("inner", inner(A, B), iAB, bound(vfdepth::depth(vfdepth::INNER, N, Vs, a512) + 1) * aAB);
+            { long double g = norm(A); rec("norm^2", g * g, nA, (bound(vfdepth::depth(vfdepth::NORM_TENSOR, N, Vs, a512) + 1) + 4 * u) * nA); }
+            { long double g = norm(A + B - B); long double nb = 0; for (size_t i = 0; i < N; ++i) { long double t = (long double)(T)((T)(A(i) + B(i)) - B(i)); nb += t * t; }
+              rec("norm(expr)^2", g * g, nb, (bound(vfdepth::depth(vfdepth::NORM_EXPR, N, Vn, a512) + 1) + 4 * u) * nb); }
+            rec("product", product(P), pP, N * u * std::fabs(pP) * 1.01L); rec("P.product", P.product(), pP, N * u * std::fabs(pP) * 1.01L);
         }
         std::printf("%s | %s%s worst_ratio=%.3g\n", head.c_str(), fails.empty() ? "ok" : "FAIL", fails.substr(0, 300).c_str(), worst);
     });
